@@ -184,9 +184,9 @@ fn all_trees(items: &[String]) -> Vec<String> {
 }
 
 /// randomly wrap subtrees in `U(…)` and turn `P(` into `O(` where the left operand is a pipe or unit pipe
-fn decorate(rng: &mut Rng, shape: &str) -> String {
+fn decorate(rng: &mut Rng, shape: &str, allow_or: bool) -> String {
     // work on the parsed structure by a tiny recursive rewrite over the string
-    fn go(rng: &mut Rng, s: &str) -> String {
+    fn go(rng: &mut Rng, s: &str, allow_or: bool) -> String {
         if s.starts_with("P(") {
             // split top-level args
             let inner = &s[2..s.len() - 1];
@@ -203,10 +203,10 @@ fn decorate(rng: &mut Rng, shape: &str) -> String {
                     _ => {}
                 }
             }
-            let mut l = go(rng, &inner[..cut]);
-            let r = go(rng, &inner[cut + 1..]);
+            let mut l = go(rng, &inner[..cut], allow_or);
+            let r = go(rng, &inner[cut + 1..], allow_or);
             let mut op = "P";
-            if rng.chance(1, 3) && cfg!(feature = "or_sink") && cfg!(feature = "or_source") {
+            if rng.chance(1, 3) && allow_or {
                 if !(l.starts_with("P(") || l.starts_with("U(") || l.starts_with("O(")) {
                     l = format!("U({})", l);
                 }
@@ -223,7 +223,7 @@ fn decorate(rng: &mut Rng, shape: &str) -> String {
             s.to_string()
         }
     }
-    go(rng, shape)
+    go(rng, shape, allow_or)
 }
 
 /// C01
@@ -235,7 +235,7 @@ pub fn gen_pipes(rng: &mut Rng, tier: &Tier) -> Vec<Case> {
         let trees = if k == 1 { vec!["U(L0)".to_string()] } else { all_trees(&items) };
         for t in &trees {
             for _ in 0..reps {
-                let shape = decorate(rng, t);
+                let shape = decorate(rng, t, true);
                 let leaves: Vec<String> = (0..k).map(|_| pipe_leaf(rng)).collect();
                 let mut c = vec![format!("new 1 pipe shape={} leaves={}", shape, leaves.join("|"))];
                 for _ in 0..rng.range(2, 9) {
@@ -260,7 +260,7 @@ pub fn gen_pipes(rng: &mut Rng, tier: &Tier) -> Vec<Case> {
             trees_s = pick;
         }
         for t in &trees_s {
-            let shape = decorate(rng, t);
+            let shape = decorate(rng, t, cfg!(feature = "or_source"));
             let leaves: Vec<String> = (0..k).map(|_| pipe_leaf(rng)).collect();
             let n = rng.range(0, 5);
             let src = if rng.chance(1, 3) {
@@ -293,7 +293,7 @@ pub fn gen_pipes(rng: &mut Rng, tier: &Tier) -> Vec<Case> {
             trees_k = pick;
         }
         for t in &trees_k {
-            let shape = decorate(rng, t);
+            let shape = decorate(rng, t, cfg!(feature = "or_sink"));
             let leaves: Vec<String> = (0..k).map(|_| pipe_leaf(rng)).collect();
             let sink = *rng.pick(&["sink_collect", "sink_collect", "sink_mean", "sink_last", "sink_max", "sink_integrate", "sink_stats"]);
             let mut c = vec![format!("new 1 pipe shape={} leaves={} sink={}", shape, leaves.join("|"), sink), "pfin 1".to_string()];
